@@ -132,6 +132,10 @@ def inspect_phc(
             name: param.type(params[param.param.name])
             for name, param in definition_info.parameters.items()
         }
+        # an integer parameter has one spelling (no sign, padding, or other digits)
+        for name, param in definition_info.parameters.items():
+            if param.type is int and str(parsed_params[name]) != params[param.param.name]:
+                raise ValueError(name)
     except (KeyError, ValueError):
         # a parameter of the definition is missing, or its value is not of the declared type
         return None
